@@ -107,18 +107,24 @@ def opsBackends (op : String) (j : Json) : Option (Except String Json) :=
   | "be.sheet" => some do
       -- first row → headers → rows, as x*_to_dict_normal_sheet does
       let grid ← (← getArr j "grid").toList.mapM fun r => do (← r.getArr?).toList.mapM cellOfJson
-      let first : List (Option Str) ← match grid with
-        | [] => pure []
-        | r :: _ => r.mapM fun c => match c with
-          | .none => pure .none
-          | .text s => pure (some s)
-          | _ => throw "typed header cell"
-      match getHeaders first with
+      match sheetOfGrid grid with
       | .error e => pure (Json.mkObj [("outcome", Json.str (errStr e))])
-      | .ok hs =>
-        let rows := getRows hs ((grid.drop 1).map fun r => r.take hs.length)
+      | .ok (rows, hdr) =>
         pure (Json.mkObj [("outcome", "ok"), ("rows", Json.arr (rows.map rowJson).toArray),
-          ("header", Json.arr ((l2dl (hs.filterMap id)).map strsJson).toArray)])
+          ("header", Json.arr (hdr.map strsJson).toArray)])
+  | "be.excel_guard" => some do
+      -- guard of `excel_roundtrip` on an abstract workbook and decoded grids; the dict container
+      let wb ← (← getArr j "sheets").toList.mapM sheetOfJson
+      let gs ← (← getArr j "grids").toList.mapM fun gj => do
+        (← gj.getArr?).toList.mapM fun r => do (← r.getArr?).toList.mapM cellOfJson
+      pure (Json.mkObj [("ok", Json.bool (Excel.ExcelOK wb && Excel.showsAllB wb gs)),
+        ("excelok", Json.bool (Excel.ExcelOK wb)), ("book", bookJson (toBook wb))])
+  | "be.excel_to_dict" => some do
+      let sheets ← (← getArr j "sheets").toList.mapM fun sj => do
+        let name ← getStr sj "name"
+        let grid ← (← getArr sj "grid").toList.mapM fun r => do (← r.getArr?).toList.mapM cellOfJson
+        pure (name, grid)
+      pure (resultJson (excelToDict sheets))
   | "be.get_xlsform" => some do
       -- text containers through a channel; binary parsers answer readError on text
       let t ← getStr j "text"
